@@ -205,4 +205,4 @@ class Engine(ExprMixin, StmtMixin, CallMixin, SpecMixin):
             if pattern == what:
                 self.covered_sites.add("at:" + label)
                 g = self.spec_eval(expr, fr, extra={"value": val})
-                self.oblige("GUARD", f"{fr.ords.of(st, 'store')}/{label}", self.truth(g), st)
+                self.oblige("GUARD", f"{fr.ords.of(st, 'site')}/{label}", self.truth(g), st)
